@@ -1,15 +1,20 @@
 """C09 - the generated constructor assigns exactly what the class hierarchy specifies.
 
-InitMethod.init(spec_cls, self, **kwargs) has three phases.  Under contract here:
+InitMethod.init(spec_cls, self, **kwargs) has three phases, all under contract here:
   phase 2 - the loop over the attributes owned by spec_cls: each init-enabled attribute receives the prepared keyword value
             (a protective copy of it unless do_not_copy / routed by a subclass) if one was given, otherwise the default
             Attr.lookup_default_value(type(self)) yields (nearest along the MRO), otherwise it is left alone (missing);
             no other slot is written;
   phase 3 - __post_init__ runs exactly once, after the loop; the `initializing` flag is removed.
-Phase 1 (routing attributes owned by parent spec classes through the parents' constructors: spec_cls.mro(), arbitrary
-user-written parent __init__) is reflection over classes and calls of unknown constructors: it is NOT verified; its effect on
-the state is taken as the declared cut assumption below and exercised by the bounded stand-in.  Overflow attributes
-(init_overflow_attr: a dynamically named helper is called) are outside the scope as well.
+  phase 1 - routing through the parents: for every proper ancestor along the MRO that has spec metadata, the attributes *owned by
+            that ancestor* are taken out of the keyword dict (protectively copied unless do_not_copy) or looked up as defaults and
+            handed to that ancestor's constructor; proved of this phase: the keyword dict keeps exactly what was passed for the
+            attributes this class owns, nothing but the instance, the keyword dict and scratch dicts is written, class-level records
+            are untouched.  What a parent's constructor does to the instance is arbitrary (A-PARENT-CTOR: it writes to the instance
+            only and may raise) - user-written constructors are code outside the library.
+Assumed: cls.mro() is a list of classes starting with cls, which does not occur again (A-MRO); a parent's metadata is a well-formed
+record whose attributes all occur in the instance's metadata (A-META).  Overflow attributes (init_overflow_attr: a dynamically
+named helper is called) are outside the scope.
 """
 import z3
 from pyvc.vals import *
@@ -24,8 +29,58 @@ from . import spec_core as sc
 INIT_Q = CORE + ":InitMethod.init"
 
 
+MRO_N = z3.Function("mro_n", Val, I)
+MRO_AT = z3.Function("mro_at", Val, I, Val)
+
+
+def mro_hook(eng, st, recv, pos, kw, fx):
+    if is_val(recv) and not pos and eng.valid(st, is_cls(recv)):
+        st = st.fork()
+        n = MRO_N(recv)
+        arr = fresh("mroarr", ArrIV)
+        j = z3.Int("j!mro9")
+        st.assume(z3.ForAll([j], z3.Select(arr, j) == z3.If(z3.And(j >= 0, j < n), MRO_AT(recv, j), ABSENT), patterns=[z3.Select(arr, j)]))
+        return [Res("ok", st, eng.alloc_list_sym(st, n, arr))]
+    return None
+
+
+class PParentInit:
+    """`parent.__init__` of a class value: an arbitrary (user-written or generated) constructor.  A-PARENT-CTOR: it writes to the
+    instance it is given and to nothing else that existed before, never defines an instance-level __spec_class__, may raise"""
+    def __init__(self, parent):
+        self.parent = parent
+
+    def pcall(self, eng, st, pos, kw, fx):
+        eng.stats["assumed"].add("A-PARENT-CTOR")
+        obj = eng.to_val(st, pos[0])
+        ok = st.fork()
+        eng.check_write(ok, a_of(obj), "parent constructor")
+        d0 = ok.get("idict", a_of(obj))
+        d1 = fresh("pinit_idict", z3.ArraySort(I, Val))
+        SCs = STR.sid("__spec_class__")
+        ok.assume(z3.Select(d1, SCs) == z3.Select(d0, SCs))
+        ok.put("idict", a_of(obj), d1)
+        na = fresh("alloc", I)
+        ok.assume(na >= ok.alloc)
+        ok.alloc = na
+        ok.note("parent constructor returns")
+        bad = ok.fork()
+        ec = fresh("pinit_exc", I)
+        bad.assume(subcls(ec, CLS.cid("Exception")))
+        bad.note("parent constructor raises")
+        return [Res("ok", ok, NONE), Res("exc", bad, PExc(None, ec, [], "raised by a parent constructor"))]
+
+
+def parent_init_hook(eng, st, v, fx):
+    if is_val(v) and eng.valid(st, is_cls(v)):
+        return [Res("ok", st, PParentInit(v))]
+    return None
+
+
 def install_hooks(models):
     sc.install_hooks(models)
+    models.method_hooks["mro"] = mro_hook
+    models.attr_hooks[("pre", "__init__")] = parent_init_hook
 
 
 def rec(st, m, k):
@@ -101,6 +156,27 @@ class Init(SpecArgs):
         st.assume(z3.ForAll([k], z3.Implies(z3.Select(st.get("dhas", A), k), z3.And(
             is_cls(fld(st, z3.Select(st.get("dval", A), k), "owner")), kn(k) == k)), patterns=[z3.Select(st.get("dhas", A), k)]))
         self._cut = None
+        # the MRO of spec_cls: a list of classes starting with spec_cls itself, which does not occur again (A-MRO)
+        sk = c.spec_cls
+        j = z3.Int("j!m9")
+        st.assume(MRO_N(sk) >= 1, MRO_AT(sk, 0) == sk,
+                  z3.ForAll([j], z3.Implies(z3.And(j >= 1, j < MRO_N(sk)), z3.And(is_cls(MRO_AT(sk, j)), MRO_AT(sk, j) != sk)), patterns=[MRO_AT(sk, j)]))
+        # A-META for the parents: a parent's metadata (if any) is a well-formed record whose attributes all occur in the instance's metadata
+        pc = z3.Int("c!pm")
+        SCs = STR.sid("__spec_class__")
+        pm = clsattr(pc, SCs)
+        kq = z3.Const("k!pm", Val)
+        PA = a_of(fld(st, pm, "attrs"))
+        st.assume(z3.ForAll([pc], z3.Implies(z3.And(z3.Not(is_absent(pm)), z3.Not(is_none(pm))), z3.And(
+            is_ref(pm), st.get("cls_of", a_of(pm)) == cid("SpecClassMetadata"), a_of(pm) >= 1000, a_of(pm) < z3.Int("alloc0"), utruthy(a_of(pm)),
+            is_ref(fld(st, pm, "attrs")), st.get("cls_of", PA) == cid("dict"), PA >= 1000, PA < z3.Int("alloc0"), st.get("dsize", PA) >= 0,
+            a_of(pm) != a_of(c.self), PA != a_of(c.self), a_of(pm) != a_of(c.kwargs), PA != a_of(c.kwargs),
+            z3.Not(is_absent(fld(st, pm, "key"))), z3.Or(is_none(fld(st, pm, "key")), is_str(fld(st, pm, "key"))))), patterns=[clsattr(pc, SCs)]))
+        A = a_of(fld(st, m, "attrs"))
+        st.assume(z3.ForAll([pc, kq], z3.Implies(z3.And(z3.Not(is_absent(pm)), z3.Not(is_none(pm)), z3.Select(st.get("dhas", PA), kq)),
+                                                 z3.And(z3.Select(st.get("dhas", A), kq), is_str(kq), kn(kq) == kq,
+                                                        z3.Select(st.get("dkey", PA), kq) == kq)),
+                            patterns=[z3.Select(st.get("dhas", PA), kq)]))
 
     def modifies(self, c):
         return [a_of(c.self), a_of(c.kwargs)]
@@ -123,11 +199,11 @@ class Init(SpecArgs):
         # nothing but the instance and the keyword dict has been written (class-level records as they were)
         for comp in ("dhas", "dval", "dsize", "dkey"):
             out.append(("attrs-" + comp, st.get(comp, a_of(fld(pre, m, "attrs"))) == pre.get(comp, a_of(fld(pre, m, "attrs")))))
-        if self._cut is None and c.side == "verify":
-            self._cut = st
+        if c.side == "verify":
+            self._cut = st          # (the last state this is evaluated on is the one execution continues from)
         return out
 
-    cuts = (("for attr, attr_spec in instance_metadata.attrs.items()", "own-attributes", lambda c, st: c.con.cut_own(c, st), "assumed"),)
+    cuts = (("for attr, attr_spec in instance_metadata.attrs.items()", "own-attributes", lambda c, st: c.con.cut_own(c, st)),)
 
     def post(self, c):
         eng, st = c.eng, c.pre
@@ -176,4 +252,52 @@ class Init(SpecArgs):
 
     def mod2(lc, pre):
         return [a_of(lc.entry.self)]
-    loops = {2: LoopSpec(inv2, mod2)}
+
+    # phase 1: `for parent in reversed(spec_cls.mro()[1:])` (loop 0) and `for attr in parent_metadata.attrs` (loop 1)
+    def kept(c, st):
+        """the keyword dict still holds what was passed for the attributes this class owns; it is the same object"""
+        con = c.con
+        K = a_of(c.kwargs)
+        k = z3.Const("k!kp", Val)
+        pre = c.pre
+        return z3.ForAll([k], z3.Implies(con.eligible(c, k), z3.And(
+            z3.Select(st.get("dhas", K), k) == z3.Select(pre.get("dhas", K), k),
+            z3.Select(st.get("dval", K), k) == z3.Select(pre.get("dval", K), k))))
+
+    def inv0(lc, st, i):
+        c = lc.entry
+        eng, pre, con = lc.eng, c.pre, c.con
+        m = con.meta(c)
+        p = lc.plan
+        sk = eng.to_val(pre, c.spec_cls)
+        j = z3.Int("j!i0")
+        return [("keywords", Init.kept(c, st)),
+                ("metadata", eng.to_val(st, st.env["instance_metadata"]) == m),
+                ("no-instance-meta", is_absent(fld(st, c.self, "__spec_class__"))),
+                ("class", st.get("cls_of", a_of(c.self)) == pre.get("cls_of", a_of(c.self))),
+                # every class visited is a proper ancestor: a class value other than spec_cls
+                ("ancestors", FA([j], z3.Implies(z3.And(j >= 0, j < p.n), z3.And(is_cls(z3.Select(p.arr, j)), z3.Select(p.arr, j) != sk)),
+                                 [z3.Select(p.arr, j)])),
+                ("next-ancestor", z3.Implies(z3.And(i >= 0, i < p.n), z3.And(is_cls(z3.Select(p.arr, i)), z3.Select(p.arr, i) != sk)))]
+
+    def mod0(lc, pre):
+        return [a_of(lc.entry.self), a_of(lc.entry.kwargs)]
+
+    def inv1(lc, st, i):
+        c = lc.entry
+        eng, pre, con = lc.eng, c.pre, c.con
+        pk = eng.to_val(st, st.env["parent_kwargs"])
+        parent = eng.to_val(st, st.env["parent"])
+        sk = eng.to_val(pre, c.spec_cls)
+        return [("keywords", Init.kept(c, st)),
+                ("metadata", eng.to_val(st, st.env["instance_metadata"]) == con.meta(c)),
+                ("parent", z3.And(parent == eng.to_val(lc.pre, lc.pre.env["parent"]), is_cls(parent), parent != sk)),
+                ("parent-metadata", eng.to_val(st, st.env["parent_metadata"]) == eng.to_val(lc.pre, lc.pre.env["parent_metadata"])),
+                ("scratch", z3.And(pk == eng.to_val(lc.pre, lc.pre.env["parent_kwargs"]), is_ref(pk), a_of(pk) >= pre.alloc,
+                                   st.get("cls_of", a_of(pk)) == cid("dict"))),
+                ("no-instance-meta", is_absent(fld(st, c.self, "__spec_class__")))]
+
+    def mod1(lc, pre):
+        eng = lc.eng
+        return [a_of(lc.entry.kwargs), a_of(eng.to_val(pre, pre.env["parent_kwargs"]))]
+    loops = {0: LoopSpec(inv0, mod0), 1: LoopSpec(inv1, mod1), 2: LoopSpec(inv2, mod2)}
